@@ -820,7 +820,7 @@ def install_proto(I):
         if u.kind == 'pointer':
             if v is None:
                 return T.app('nilmsg')
-            return marshal_struct(I, u.elemt(), v.load())
+            return T.app('submsg', marshal_struct(I, u.elemt(), v.load()))
         if u.kind == 'map':
             if v is None or not v.items:
                 return T.app('list')
@@ -833,8 +833,37 @@ def install_proto(I):
             if f['name'] in SKIP_FIELDS:
                 continue
             parts.append(field_term(I, I.prog.types[f['t']], sv[i]))
+        # the encoding of a message whose fields are all zero/empty is the empty string
+        empty = T.lit_bytes(b'')
+        zero64 = u64term(0)
+        if all(p.eq(empty) or p.eq(zero64) or T.app_name(p) in ('nilmsg',) or (T.app_name(p) == 'list' and not T.is_app(p)) for p in parts):
+            return empty
         t = T.app('pb:' + st.str.rsplit('.', 1)[-1], *parts)
-        I.add(T.blen(t) >= 0)
+        # length facts: at least the bytes of every field; non-empty as soon as one field is non-empty
+        total = 0
+        nonempty = []
+        for p in parts:
+            if p.sort() == T.Term and z3.is_app(p) and p.decl().name() in ('bits',) and z3.is_int_value(p.arg(0)) and p.arg(0).as_long() == 8 and not T.concrete_bytes(p):
+                nonempty.append(p != zero64)
+                continue
+            cb = T.concrete_bytes(p)
+            if cb is not None:
+                if len(cb) == 8 and p.eq(zero64):
+                    continue
+                total = total + (len(cb) if len(cb) else 0)
+                if len(cb):
+                    nonempty.append(z3.BoolVal(True))
+                continue
+            if T.app_name(p) == 'nilmsg':
+                continue
+            if T.app_name(p) == 'submsg':
+                nonempty.append(z3.BoolVal(True))
+                continue
+            total = total + T.blen(p)
+            nonempty.append(T.blen(p) > 0)
+        I.add(T.blen(t) >= total)
+        if nonempty:
+            I.add(z3.Implies(z3.Or(*nonempty), T.blen(t) > 0))
         return t
 
     I.marshal_struct = lambda st, sv: marshal_struct(I, st, sv)
@@ -879,12 +908,18 @@ def install_proto(I):
             a = T.is_app(t, 'nilmsg')
             if a is not None:
                 return None
-            sub = T.is_app(t)
-            if sub is not None:
+            w = T.is_app(t, 'submsg')
+            if w is not None:
+                inner = w[0]
                 st = u.elemt()
                 sv = I.zero(st)
-                fill_struct(I, st, sv, sub, depth + 1)
-                return Ptr([sv], 0)
+                sub = T.is_app(inner)
+                if sub is not None:
+                    fill_struct(I, st, sv, sub, depth + 1)
+                    return Ptr([sv], 0)
+                cb = T.concrete_bytes(inner)
+                if cb is not None and len(cb) == 0:
+                    return Ptr([sv], 0)
             raise Inconclusive('unmarshal of symbolic nested message')
         if u.kind == 'slice':
             a = T.is_app(t, 'list')
